@@ -57,6 +57,7 @@ type c03Case struct {
 	Entries  []c03Entry `json:"entries,omitempty"`
 	Form     string     `json:"form,omitempty"`
 	HdrAlg   string     `json:"hdrAlg,omitempty"`
+	HdrKid   string     `json:"hdrKid,omitempty"`
 	Seed     uint64     `json:"seed"`
 }
 
@@ -817,6 +818,22 @@ func c03RandomCases(r *vf.Rand, seed uint64, n int) []c03Case {
 					e.Prot, e.Hdr = c03Ptr(""), c03Ptr(a)
 				default:
 					e.Prot, e.Hdr = c03Ptr(vf.Pick(r, pool)), c03Ptr(a)
+				}
+				if r.Intn(3) == 0 { // a differently spelled (or duplicate) alg member carrying another algorithm
+					x := []c03Member{c03StrMember(vf.Pick(r, c03AlgNameVariants), vf.Pick(r, pool), r.Bool())}
+					if e.Prot != nil && r.Bool() {
+						e.ProtX = x
+					} else if e.Hdr != nil {
+						e.HdrX = x
+					} else {
+						e.ProtX = x
+					}
+					if ea := e.alg(); ea != a {
+						if _, ok := c03SigSpecByName(ea); ok {
+							e.SignAlg = ea
+							e.SignKind, _, _, _ = c03KindsFor(ea)
+						}
+					}
 				}
 				switch r.Intn(6) {
 				case 0:
